@@ -163,10 +163,15 @@ class Exec:
         self.queries = 0
         self.solver_s = 0.0
         self.bases = {}
+        self.deadline = None
 
     # ---- solver helpers
     def check(self, pc, extra):
         import time
+        if self.deadline is not None and time.time() > self.deadline:
+            if 'time budget exhausted' not in self.inconclusive:
+                self.inconclusive.append('time budget exhausted')
+            return 'unknown', None
         self.queries += 1
         self.solver.push()
         for c in pc:
@@ -321,6 +326,38 @@ class Exec:
             else:
                 raise Unsupported(f"block {path.block} falls off its end")
 
+    def call_internal(self, g, vals, path, stack):
+        """a function of the same module: executed in place on the caller's path (straight-line callees only)"""
+        saved = (path.env, path.block, path.prev, path.idx)
+        path.env = {name: a for (ty, name), a in zip(g.params, vals)}
+        path.block, path.prev, path.idx = g.order[0], None, 0
+        depth = getattr(path, 'depth', 0)
+        if depth > 8:
+            raise Unsupported("call depth")
+        path.depth = depth + 1
+        result = None
+        while True:
+            ins_list = g.blocks[path.block]
+            jumped = False
+            while path.idx < len(ins_list):
+                ins = ins_list[path.idx]
+                path.idx += 1
+                if re.match(r'^br i1 ', ins):
+                    raise Unsupported(f"conditional branch inside the internal callee {g.name}")
+                r = self.step(g, path, ins, stack)
+                if r == 'ret':
+                    result = path.env.get('%ret')
+                    path.env, path.block, path.prev, path.idx = saved
+                    path.depth = depth
+                    return result
+                if r == 'jump':
+                    jumped = True
+                    break
+                if r == 'dead':
+                    raise Unsupported("unreachable inside an internal callee")
+            if not jumped:
+                raise Unsupported(f"block {path.block} of {g.name} falls off its end")
+
     def goto(self, path, label):
         path.prev, path.block, path.idx = path.block, label, 0
 
@@ -419,7 +456,54 @@ class Exec:
                 self.goto(path, mm.group(3))
                 return 'jump'
             return 'dead'
-        if op in ('add', 'sub', 'mul', 'sdiv', 'udiv', 'srem', 'urem', 'and', 'or', 'xor'):
+        if op in ('shl', 'lshr', 'ashr'):
+            mm = re.match(rf'{op}((?: nsw| nuw| exact)*) (i\d+) (.+?), (.+)$', rhs)
+            flags, ty = mm.group(1), mm.group(2)
+            a, b = self.val(path, ty, mm.group(3)), self.val(path, ty, mm.group(4))
+            w = a.w
+            if not is_c(b.t):
+                raise Unsupported(f"shift by a symbolic amount: {ins}")
+            sh = b.t % (1 << w)
+            if sh >= w:
+                self.oblige(path, False, f"shift amount {sh} >= width in `{ins}` (poison)")
+                sh = 0
+            if op == 'shl':
+                x = a.t * (1 << sh)
+                if 'nsw' in flags:
+                    self.oblige(path, in_range(x, w), f"signed overflow in `{ins}` (undefined behaviour)")
+                path.env[dst] = IntV(w, wrap(x, w))
+            elif op == 'lshr':
+                ua = uns(a.t, w)
+                r = (ua >> sh) if is_c(ua) else ua / (1 << sh)
+                path.env[dst] = IntV(w, wrap(r, w))
+            else:
+                r = (a.t >> sh) if is_c(a.t) else z3.If(a.t >= 0, a.t / (1 << sh), -((-a.t + (1 << sh) - 1) / (1 << sh)))
+                path.env[dst] = IntV(w, r)
+            return
+        if op in ('and', 'or', 'xor'):
+            mm = re.match(rf'{op} (i\d+) (.+?), (.+)$', rhs)
+            ty = mm.group(1)
+            a, b = self.val(path, ty, mm.group(2)), self.val(path, ty, mm.group(3))
+            w = a.w
+            if is_c(a.t) and is_c(b.t):
+                ua, ub = uns(a.t, w), uns(b.t, w)
+                r = {'and': ua & ub, 'or': ua | ub, 'xor': ua ^ ub}[op]
+                path.env[dst] = IntV(w, wrap(r, w))
+                return
+            const, var = (b, a) if is_c(b.t) else ((a, b) if is_c(a.t) else (None, None))
+            if op == 'and' and const is not None:
+                m = uns(const.t, w)
+                if m & (m + 1) == 0:          # low-bit mask 2^k - 1
+                    path.env[dst] = IntV(w, wrap(uns(var.t, w) % (m + 1), w))
+                    return
+            if w == 1:
+                ca, cb = (a.t != 0), (b.t != 0)
+                c = {'and': z3.And(ca, cb), 'or': z3.Or(ca, cb), 'xor': z3.Xor(ca, cb)}[op]
+                path.env[dst] = IntV(1, z3.If(c, -1, 0))
+                path.env[dst + '#cond'] = c
+                return
+            raise Unsupported(f"bitwise operation outside the table: {ins}")
+        if op in ('add', 'sub', 'mul', 'sdiv', 'udiv', 'srem', 'urem'):
             mm = re.match(rf'{op}((?: nsw| nuw| exact)*) (i\d+) (.+?), (.+)$', rhs)
             flags, ty = mm.group(1), mm.group(2)
             a, b = self.val(path, ty, mm.group(3)), self.val(path, ty, mm.group(4))
@@ -498,9 +582,12 @@ class Exec:
                 ty = toks[0]
                 rest = toks[1].replace('noundef ', '').strip()
                 vals.append(self.val(path, ty, rest))
-            if callee not in self.externs:
+            if callee not in self.externs and callee in self.funcs:
+                r = self.call_internal(self.funcs[callee], vals, path, stack)
+            elif callee not in self.externs:
                 raise Unsupported(f"call to {callee}")
-            r = self.externs[callee](self, path, vals)
+            else:
+                r = self.externs[callee](self, path, vals)
             if dst is not None:
                 path.env[dst] = r
             return
